@@ -71,3 +71,48 @@ Theorem C07_init_not_expired :
   action_sgn_init ev p (RDefault created) = CbOk out resp p' ->
   exists g, p_sgn p' = Some g /\ expired (gc_expires g) (gc_updated g) = false.
 Proof. exact init_not_expired. Qed.
+
+(* ---- node level: from "collected" to "stored on every node" ---- *)
+Require Import Node.Types Node.Process Node.Reconstructed.
+Local Open Scope string_scope.
+(* the answer that completes the batch: the node reconstructs from exactly the collected
+   contributions of the FSM's response, posts ONE `signature_reconstructed` message carrying exactly
+   those signatures, restarts the round for the next batch and saves it; a failing reconstruction
+   writes nothing *)
+Theorem C07_collecting_answer_is_broadcast :
+  forall now m req h inst i1 batch src parts,
+  sender_is_participant (i_payload inst) (m_sender m) req = true ->
+  String.eqb (m_event m) ev_sgn_start = false ->
+  do_live inst (m_event m) req = FOk i1 st_partial_collected (Some (RespSigningProcess batch src parts)) ->
+  match reconstruct (h_st h) (m_round m) (i_payload i1) batch src parts with
+  | Some sigs =>
+      match do_fresh (dump_of i1) ev_sgn_restart (RDefault now) with
+      | FOk i4 _ _ => pm_tail now m req h inst =
+                      ROk (save_fsm (emit h (WSend (broadcast_of h m sigs))) (m_round m) (dump_of i4)) None
+      | FErr => pm_tail now m req h inst = RErr (emit h (WSend (broadcast_of h m sigs)))
+      | FPanic => pm_tail now m req h inst = RPanic
+      end
+  | None => pm_tail now m req h inst = RErr h
+  end.
+Proof. exact collecting_answer_is_broadcast. Qed.
+(* every node that accepts that broadcast holds each of its signatures afterwards (under the
+   sender's name, in the round the message names - no other round's store changes) *)
+Theorem C07_broadcast_signatures_are_stored :
+  forall now st m h' o,
+  String.eqb (m_event m) ev_sig_reconstructed = true ->
+  process_message now {| h_st := st; h_tr := [] |} m = ROk h' o ->
+  exists l, m_req m = MSigs (Some l) /\ l <> [] /\ o = None /\
+    (slots_distinct (stamped m l) = true ->
+     forall s, In s (stamped m l) -> holds (round_store (h_st h') (m_round m)) s) /\
+    (forall r', r' <> m_round m -> tget' (ns_sigs (h_st h')) r' = tget' (ns_sigs st) r').
+Proof. exact reconstructed_message_is_stored. Qed.
+(* `reconstruct` yields one signature per message id, so for the broadcast a node actually makes the
+   side condition above is met: every signature of it is held by every node accepting it *)
+Theorem C07_broadcast_of_reconstruction_is_stored :
+  forall now st0 round p batch src parts sigs st m h' o,
+  reconstruct st0 round p batch src parts = Some sigs ->
+  String.eqb (m_event m) ev_sig_reconstructed = true -> m_req m = MSigs (Some sigs) ->
+  process_message now {| h_st := st; h_tr := [] |} m = ROk h' o ->
+  forall s, In s (stamped m sigs) -> holds (round_store (h_st h') (m_round m)) s.
+Proof. exact broadcast_of_reconstruction_is_stored. Qed.
+Print Assumptions C07_broadcast_of_reconstruction_is_stored.
